@@ -361,7 +361,7 @@ static void run_from(uint64_t first, uint64_t limit_cases, unsigned batch)
       }
     }
     if (status == -1) { idx = S->cur_case + (uint64_t)HV.nworkers; continue; }
-    if (WIFEXITED(status) && WEXITSTATUS(status) == 0) { idx = S->next_case; continue; }
+    if (WIFEXITED(status) && WEXITSTATUS(status) == 0 && !S->running && S->next_case > idx) { idx = S->next_case; continue; }
     int ec = WIFEXITED(status) ? WEXITSTATUS(status) : -1;
     int sg = WIFSIGNALED(status) ? WTERMSIG(status) : 0;
     if (ec == 97) { /* harness failure already recorded */ }
